@@ -263,4 +263,184 @@ example :
 
 end attempt
 
+/-! ### the advanced-shard-awareness block: armed by a requested miss only, for 300 s, never re-armed -/
+
+section block
+open ScyllaVerif.C11PoolAttempt
+
+/-- "A requested attempt whose sharder equals the reported one landed on another shard." -/
+def Miss (a : Arrival) : Prop :=
+  ∃ shard sharder, a.requested = some (shard, sharder) ∧ a.reportedSharder = some sharder ∧ shard ≠ a.reportedShard
+
+theorem isMiss_iff (a : Arrival) : isMiss a = true ↔ Miss a := by
+  unfold isMiss Miss
+  cases h : a.requested with
+  | none => simp
+  | some r =>
+    obtain ⟨s, sh⟩ := r
+    simp only [Bool.and_eq_true, decide_eq_true_eq, Option.some.injEq, Prod.mk.injEq]
+    constructor
+    · rintro ⟨h1, h2⟩; exact ⟨s, sh, ⟨rfl, rfl⟩, h1, h2⟩
+    · rintro ⟨_, _, ⟨rfl, rfl⟩, h1, h2⟩; exact ⟨h1, h2⟩
+
+/-- **The block is armed exactly by a requested miss** (step form): an arrival changes `blocked_until` iff it is a miss
+and no block is in effect, and then to `now + 300`. -/
+theorem block_iff_requested_miss_step (b : Option Nat) (a : Arrival) :
+    (onArrival b a ≠ b ↔ Miss a ∧ isBlocked b a.now = false) ∧
+    (Miss a → isBlocked b a.now = false → onArrival b a = some (a.now + 300)) := by
+  rw [← isMiss_iff]
+  unfold onArrival armBlock
+  cases hm : isMiss a <;> cases hb : isBlocked b a.now <;> simp [blockSeconds]
+  intro h; subst h
+  simp [isBlocked] at hb
+
+/-- Every value `blocked_until` ever takes was armed by a miss of the history, 300 s after that miss's clock. -/
+theorem armed_by_a_miss (hist : List Arrival) (b : Option Nat) (u : Nat) (h : runArrivals b hist = some u) :
+    b = some u ∨ ∃ a ∈ hist, Miss a ∧ u = a.now + 300 := by
+  induction hist generalizing b with
+  | nil => left; simpa [runArrivals] using h
+  | cons a as ih =>
+    simp only [runArrivals] at h
+    rcases ih _ h with h1 | ⟨a', ha', hm, hu⟩
+    · by_cases hc : onArrival b a = b
+      · left; rw [← hc]; exact h1
+      · right
+        obtain ⟨hm, hb⟩ := (block_iff_requested_miss_step b a).1.mp hc
+        have := (block_iff_requested_miss_step b a).2 hm hb
+        rw [this] at h1
+        exact ⟨a, List.mem_cons_self .., hm, by cases h1; rfl⟩
+    · exact Or.inr ⟨a', List.mem_cons_of_mem _ ha', hm, hu⟩
+
+private theorem runArrivals_isSome_of_some (hist : List Arrival) (b : Option Nat) (hb : b.isSome) :
+    (runArrivals b hist).isSome := by
+  induction hist generalizing b with
+  | nil => simpa [runArrivals] using hb
+  | cons a as ih =>
+    simp only [runArrivals]
+    apply ih
+    unfold onArrival armBlock
+    split
+    · split
+      · exact hb
+      · rfl
+    · exact hb
+
+/-- **`block_iff_requested_miss`, over all arrival histories** of a fresh refiller: a block has been armed iff the
+history contains a requested attempt whose sharder equals the reported one and which landed on another shard. -/
+theorem block_iff_requested_miss (hist : List Arrival) :
+    (runArrivals none hist).isSome ↔ ∃ a ∈ hist, Miss a := by
+  constructor
+  · intro h
+    obtain ⟨u, hu⟩ := Option.isSome_iff_exists.mp h
+    rcases armed_by_a_miss hist none u hu with h1 | ⟨a, ha, hm, _⟩
+    · cases h1
+    · exact ⟨a, ha, hm⟩
+  · rintro ⟨a, ha, hm⟩
+    have key : ∀ (hist : List Arrival) (b : Option Nat), a ∈ hist → (runArrivals b hist).isSome := by
+      intro hist
+      induction hist with
+      | nil => intro _ h; cases h
+      | cons x xs ih =>
+        intro b hx
+        simp only [runArrivals]
+        rcases List.mem_cons.mp hx with rfl | hx
+        · apply runArrivals_isSome_of_some
+          have hm' := (isMiss_iff a).mpr hm
+          unfold onArrival armBlock
+          rw [hm']
+          simp only [if_true]
+          split
+          · next hb => cases b with
+            | none => simp [isBlocked] at hb
+            | some _ => rfl
+          · rfl
+        · exact ih _ hx
+    exact key hist none ha
+
+/-- **`block_lasts_300s`**: a miss at a moment when no block is in effect refuses shard-aware attempts at exactly the
+times `t < now + 300` (for a pool that could otherwise use the shard-aware port) … -/
+theorem block_lasts_300s (b : Option Nat) (a : Arrival) (hm : Miss a) (hb : isBlocked b a.now = false)
+    (n port t : Nat) :
+    canUseShardAwarePort (some n) (some port) true (onArrival b a) t = false ↔ t < a.now + 300 := by
+  rw [(block_iff_requested_miss_step b a).2 hm hb]
+  simp [canUseShardAwarePort, isBlocked]
+
+/-- … while a block is in effect nothing re-arms or prolongs it … -/
+theorem block_not_rearmed (b : Option Nat) (a : Arrival) (hb : isBlocked b a.now = true) : onArrival b a = b := by
+  unfold onArrival armBlock
+  simp [hb]
+
+/-- … and, over all histories of a fresh refiller: shard-aware attempts are refused at time `t` iff `blocked_until` is
+`now + 300` of some miss of the history and `t` is before it. -/
+theorem refused_iff_within_300s_of_a_miss (hist : List Arrival) (n port t : Nat) :
+    canUseShardAwarePort (some n) (some port) true (runArrivals none hist) t = false ↔
+      ∃ a ∈ hist, Miss a ∧ runArrivals none hist = some (a.now + 300) ∧ t < a.now + 300 := by
+  constructor
+  · intro h
+    cases hr : runArrivals none hist with
+    | none => rw [hr] at h; simp [canUseShardAwarePort, isBlocked] at h
+    | some u =>
+      rw [hr] at h
+      simp [canUseShardAwarePort, isBlocked] at h
+      rcases armed_by_a_miss hist none u hr with h1 | ⟨a, ha, hm, hu⟩
+      · cases h1
+      · exact ⟨a, ha, hm, by rw [hu], by omega⟩
+  · rintro ⟨a, _, _, hr, ht⟩
+    rw [hr]
+    simp [canUseShardAwarePort, isBlocked, ht]
+
+/-- **`no_block_on_sharder_change`**: an arrival whose reported sharder differs from the one it was requested with (the
+node resharded while the attempt was in flight, or sent no shard info) never arms the block, wherever it landed. -/
+theorem no_block_on_sharder_change (b : Option Nat) (a : Arrival) (shard : Nat) (sharder : SharderK)
+    (hr : a.requested = some (shard, sharder)) (hne : a.reportedSharder ≠ some sharder) : onArrival b a = b := by
+  unfold onArrival isMiss
+  rw [hr]
+  simp [hne]
+
+/-- **`hit_never_blocks`**: a requested attempt that landed on the shard it asked for never arms the block. -/
+theorem hit_never_blocks (b : Option Nat) (a : Arrival) (sharder : SharderK)
+    (hr : a.requested = some (a.reportedShard, sharder)) : onArrival b a = b := by
+  unfold onArrival isMiss
+  rw [hr]
+  simp
+
+/-- A plain attempt (nothing requested) never arms the block. -/
+theorem plain_never_blocks (b : Option Nat) (a : Arrival) (hr : a.requested = none) : onArrival b a = b := by
+  unfold onArrival isMiss
+  rw [hr]
+  simp
+
+/-- History form of the last three: a history made of hits, sharder changes and plain arrivals only leaves a fresh
+refiller unblocked for ever. -/
+theorem no_miss_no_block (hist : List Arrival) (h : ∀ a ∈ hist, ¬ Miss a) (n port t : Nat) :
+    runArrivals none hist = none ∧ canUseShardAwarePort (some n) (some port) true (runArrivals none hist) t = true := by
+  have h0 : runArrivals none hist = none := by
+    cases hr : runArrivals none hist with
+    | none => rfl
+    | some u =>
+      have : (runArrivals none hist).isSome := by rw [hr]; rfl
+      obtain ⟨a, ha, hm⟩ := (block_iff_requested_miss hist).mp this
+      exact absurd hm (h a ha)
+  rw [h0]
+  exact ⟨rfl, by simp [canUseShardAwarePort, isBlocked]⟩
+
+-- non-vacuity: 4 shards. A hit (asked 2, got 2), a reshard in flight (asked 1 of the old sharder, got 3), a plain
+-- arrival: no block. A miss at t = 1000 (asked 1, got 3, same sharder): blocked until 1300; a second miss at 1100 does
+-- not prolong it; a miss at 1300 arms it anew.
+example :
+    let sh : SharderK := ⟨4, 12⟩
+    let hit : Arrival := ⟨some (2, sh), 2, some sh, 900⟩
+    let resh : Arrival := ⟨some (1, ⟨8, 12⟩), 3, some sh, 950⟩
+    let plain : Arrival := ⟨none, 3, some sh, 960⟩
+    let miss (t : Nat) : Arrival := ⟨some (1, sh), 3, some sh, t⟩
+    runArrivals none [hit, resh, plain] = none ∧
+    runArrivals none [hit, miss 1000] = some 1300 ∧
+    runArrivals none [miss 1000, miss 1100] = some 1300 ∧
+    runArrivals none [miss 1000, miss 1300] = some 1600 ∧
+    canUseShardAwarePort (some 4) (some 19042) true (some 1300) 1299 = false ∧
+    canUseShardAwarePort (some 4) (some 19042) true (some 1300) 1300 = true := by
+  decide
+
+end block
+
 end ScyllaVerif.Props.C11Pool
